@@ -64,6 +64,17 @@ CHECKS["C19"] = dict(
     text="Every sequence (up to the completed depth) of content changes, entitlement changes, child removal/re-add at the parent, publisher removal/re-add at the server, suspension, child/parent/CA removal, key-roll steps and restarts: for every CA and parent the status shows failure (with exactly the error of the attempt) iff the most recent attempt failed, otherwise the entitlements of the parent's last list response; the published-object list equals the server's list reply after the last successful sync; the parent shows the outcome of the child's last request; a restart changes no status field; removal of parent/child/CA removes the entries (also from storage).",
     note=E1_NOTE + " Local exchanges bypass CMS, so one-sided identity replacement cannot fail here (C12 covers the signed path).")
 
+CHECKS["C10"] = dict(
+    engine="E1", category="model_checking", design="4/C10",
+    technique="explicit-state exploration (fork-checkpointed DFS) of publication-delta sequences from several publishers on the real RepositoryManager against a per-publisher reference map",
+    text="Every sequence (up to the completed depth) of deltas from publishers alice / alice2 (look-alike handle) / bob (single- and two-element deltas: publish, update and withdraw with right and wrong hashes, foreign base URIs, upper-case scheme/host, dot segments, the bare base URI) interleaved with RRDP updates and publisher removal / re-adding: a delta is accepted exactly when the reference (current + staged content, jail) says so and then applied as a whole, otherwise nothing changes; every publisher's list reply equals the reference after every step; no publisher's content is touched by another's request; removal withdraws exactly that publisher's objects.",
+    note=E1_NOTE + " Requests enter at RepositoryManager::rfc8181_message (after CMS validation, which is C12's subject). The state fingerprint includes krill's own (reloaded) view of snapshot, deltas and staged element kinds.")
+CHECKS["C11"] = dict(
+    engine="E1+E3", category="model_checking", design="4/C11",
+    technique="explicit-state exploration (fork-checkpointed DFS) of publication histories with a simulated RRDP client that remembers every serial it has seen, under several retention configurations; plus enumeration of every file-system cut point of a repository write (fault points) with recovery by the next write",
+    text="Every publication history (up to the completed depth) with RRDP updates, session resets and clock steps under retention configurations (tight 1/2, dense young-delta, min=max, thorough: test, default+archive, dense archive): after every step the notification parses and names an existing snapshot and deltas with the stated hashes, the snapshot equals the publication state at its serial, serials step by one, the session changes only on reset (serial 1, no deltas), deltas form a contiguous run ending at the serial and respect the documented maximum, a client at any remembered serial reaches the snapshot through the advertised chain, and rsync/current equals the snapshot. Fault part: every cut (crash and single failing write) of the file-system mutation sequence of an update, followed by the next successful write.",
+    note=E1_NOTE + " The delta cap follows the documented precedence (min_nr previous deltas plus the new one and all deltas younger than min_seconds are always kept). Cuts are process deaths between mutations, not torn sectors.")
+
 NOT_YET = {
 }
 
